@@ -245,4 +245,299 @@ theorem mapListBody_progress (f : List Nat) (pos left p left' : Nat)
     | (injection h with h _; omega)
     | cases h
 
+/-! ### composition: whole parsers -/
+
+/-- bound relative to an upper bound `B` on the positions at which the body continues -/
+theorem run_bound_kB {σ ρ : Type} (body : Nat → σ → Iter σ ρ) (limit k B : Nat)
+    (hprog : ∀ pos st p st', pos < limit → body pos st = .next p st' → pos + k ≤ p ∧ p ≤ B) :
+    ∀ (m pos : Nat) (st : σ) (n : Nat), limit - pos ≤ m →
+      k * ((run body limit pos st n).steps - n) ≤ (B - pos) + k := by
+  intro m
+  induction m with
+  | zero =>
+    intro pos st n hm
+    rw [run]
+    have : ¬ pos < limit := by omega
+    simp [this, Outcome.steps]
+  | succ m ih =>
+    intro pos st n hm
+    rw [run]
+    by_cases h : pos < limit
+    · simp only [h, dite_true]
+      cases hb : body pos st with
+      | stop r => simp [Outcome.steps]
+      | next p st' =>
+        have hp := hprog pos st p st' h hb
+        by_cases hpp : pos < p
+        · simp only [hpp, dite_true]
+          have := ih p st' (n + 1) (by omega)
+          have hs : (run body limit p st' (n + 1)).steps - n
+              ≤ ((run body limit p st' (n + 1)).steps - (n + 1)) + 1 := by omega
+          calc k * ((run body limit p st' (n + 1)).steps - n)
+              ≤ k * (((run body limit p st' (n + 1)).steps - (n + 1)) + 1) := Nat.mul_le_mul_left k hs
+            _ = k * ((run body limit p st' (n + 1)).steps - (n + 1)) + k := by rw [Nat.mul_succ]
+            _ ≤ (B - p + k) + k := Nat.add_le_add_right this k
+            _ ≤ (B - pos) + k := by omega
+        · simp only [hpp, dite_false, Outcome.steps]
+          have : n + 1 - n = 1 := by omega
+          rw [this, Nat.mul_one]; omega
+    · simp [h, Outcome.steps]
+
+theorem doNextBody_stop_tag (f : List Nat) (fs pos : Nat) (ev : Ev) (p : Nat)
+    (h : doNextBody f fs pos () = .stop (ev, p)) (ht : isTag ev = true) : pos + 8 ≤ p := by
+  unfold doNextBody at h
+  split at h
+  · simp only [Iter.stop.injEq, Prod.mk.injEq] at h; obtain ⟨rfl, rfl⟩ := h; simp [isTag] at ht
+  · split at h
+    · simp only [Iter.stop.injEq, Prod.mk.injEq] at h; obtain ⟨rfl, rfl⟩ := h; simp [isTag] at ht
+    · simp only [Iter.stop.injEq, Prod.mk.injEq] at h; obtain ⟨rfl, rfl⟩ := h; simp [isTag] at ht
+    · rename_i hd hok
+      have ⟨h1, h2, h3, h4, h5⟩ := arscHeader_ok f pos hd hok
+      repeat' split at h
+      all_goals first
+        | (simp only [Iter.stop.injEq, Prod.mk.injEq] at h; obtain ⟨rfl, rfl⟩ := h
+           first | (simp [isTag] at ht; done) | omega)
+        | cases h
+
+/-- a `_do_next` call that ends with a tag / text event after `s` iterations leaves the position at
+    least `8·s` bytes further -/
+theorem doNext_exit_tag (f : List Nat) (fs : Nat) :
+    ∀ (m pos n s : Nat) (ev : Ev) (p : Nat), f.length - pos ≤ m →
+      run (doNextBody f fs) f.length pos () n = .exit s (ev, p) → isTag ev = true →
+      pos + 8 * (s - n) ≤ p ∧ n < s := by
+  intro m
+  induction m with
+  | zero =>
+    intro pos n s ev p hm h _
+    rw [run] at h
+    have : ¬ pos < f.length := by omega
+    simp [this] at h
+  | succ m ih =>
+    intro pos n s ev p hm h ht
+    rw [run] at h
+    by_cases hl : pos < f.length
+    · simp only [hl, dite_true] at h
+      cases hb : doNextBody f fs pos () with
+      | stop r =>
+        rw [hb] at h
+        simp only [Outcome.exit.injEq] at h
+        obtain ⟨rfl, rfl⟩ := h
+        have := doNextBody_stop_tag f fs pos ev p hb ht
+        omega
+      | next q st' =>
+        rw [hb] at h
+        cases st'
+        have hq := doNextBody_progress f fs pos q () hb
+        have hpq : pos < q := by omega
+        simp only [hpq, dite_true] at h
+        have := ih q (n + 1) s ev p (by omega) h ht
+        omega
+    · simp [hl] at h
+
+theorem doNext_steps_le (f : List Nat) (fs pos : Nat) :
+    8 * (doNext f fs pos).steps ≤ (f.length - pos) + 8 := by
+  have := run_bound_k (doNextBody f fs) f.length 8
+    (fun p st q st' _ h => doNextBody_progress f fs p q st' h)
+    (f.length - pos) pos () 0 (Nat.le_refl _)
+  simpa [doNext] using this
+
+theorem doNext_not_stuck (f : List Nat) (fs pos : Nat) : (doNext f fs pos).isStuck = false :=
+  (run_bound (doNextBody f fs) f.length
+    (fun p st q st' _ h => by have := doNextBody_progress f fs p q st' h; omega)
+    (f.length - pos) pos () 0 (Nat.le_refl _)).1
+
+/-- the whole document: never stuck, and `8 · (all iterations of all calls) ≤ bytes left + 16` -/
+theorem axmlDoc_bound (f : List Nat) (fs : Nat) :
+    ∀ (m pos acc : Nat), f.length - pos ≤ m →
+      (axmlDoc f fs pos acc).2 = false ∧
+      8 * (axmlDoc f fs pos acc).1 ≤ 8 * acc + (f.length - pos) + 16 := by
+  intro m
+  induction m with
+  | zero =>
+    intro pos acc hm
+    have hs := doNext_steps_le f fs pos
+    have hns := doNext_not_stuck f fs pos
+    rw [axmlDoc]
+    cases hd : doNext f fs pos with
+    | exit n r =>
+      obtain ⟨ev, p⟩ := r
+      rw [hd] at hs; simp only [Outcome.steps] at hs
+      simp only []
+      by_cases ht : isTag ev = true
+      · have := (doNext_exit_tag f fs (f.length - pos) pos 0 n ev p (Nat.le_refl _)
+          (by simpa [doNext] using hd) ht)
+        rw [if_pos ht]
+        have h1 : ¬ (pos < p ∧ p < f.length) := by omega
+        have h2 : ¬ p ≤ pos := by omega
+        rw [dif_neg h1, if_neg h2]
+        refine ⟨rfl, ?_⟩
+        show 8 * (acc + n + 1) ≤ _
+        omega
+      · rw [if_neg ht]
+        refine ⟨rfl, ?_⟩
+        show 8 * (acc + n) ≤ _
+        omega
+    | cond n p st =>
+      rw [hd] at hs; simp only [Outcome.steps] at hs
+      refine ⟨rfl, ?_⟩
+      show 8 * (acc + n + 1) ≤ _
+      omega
+    | stuck n p => rw [hd] at hns; simp [Outcome.isStuck] at hns
+  | succ m ih =>
+    intro pos acc hm
+    have hs := doNext_steps_le f fs pos
+    have hns := doNext_not_stuck f fs pos
+    rw [axmlDoc]
+    cases hd : doNext f fs pos with
+    | exit n r =>
+      obtain ⟨ev, p⟩ := r
+      rw [hd] at hs; simp only [Outcome.steps] at hs
+      simp only []
+      by_cases ht : isTag ev = true
+      · have hx := (doNext_exit_tag f fs (f.length - pos) pos 0 n ev p (Nat.le_refl _)
+          (by simpa [doNext] using hd) ht)
+        rw [if_pos ht]
+        by_cases h1 : pos < p ∧ p < f.length
+        · rw [dif_pos h1]
+          have := ih p (acc + n) (by omega)
+          exact ⟨this.1, by have := this.2; omega⟩
+        · have h2 : ¬ p ≤ pos := by omega
+          rw [dif_neg h1, if_neg h2]
+          refine ⟨rfl, ?_⟩
+          show 8 * (acc + n + 1) ≤ _
+          omega
+      · rw [if_neg ht]
+        refine ⟨rfl, ?_⟩
+        show 8 * (acc + n) ≤ _
+        omega
+    | cond n p st =>
+      rw [hd] at hs; simp only [Outcome.steps] at hs
+      refine ⟨rfl, ?_⟩
+      show 8 * (acc + n + 1) ≤ _
+      omega
+    | stuck n p => rw [hd] at hns; simp [Outcome.isStuck] at hns
+
+/-! ### ARSC: outer loop × inner loops -/
+
+theorem arscOuterBody_next (f : List Nat) (outerEnd : Nat) (parse : Hdr → Bool) (pos p : Nat)
+    (st : Unit) (h : arscOuterBody f outerEnd parse pos () = .next p st) :
+    pos + 8 ≤ p ∧ p ≤ outerEnd := by
+  unfold arscOuterBody at h
+  split at h
+  · cases h
+  · split at h
+    · cases h
+    · rename_i hd hok
+      have ⟨h1, h2, h3, h4, h5⟩ := arscHeader_ok f pos hd hok
+      repeat' split at h
+      all_goals first
+        | (injection h with h _; omega)
+        | cases h
+
+/-- one chunk loop bounded by its own end: `8 · iterations ≤ (end − start) + 8` -/
+theorem arscChunks_steps_end (f : List Nat) (e : Nat) (parse : Hdr → Bool) (pos : Nat) :
+    8 * (arscChunks f e parse pos).steps ≤ (e - pos) + 8 := by
+  have := run_bound_kB (arscOuterBody f e parse) (f.length + 1) 8 e
+    (fun p st q st' _ h => arscOuterBody_next f e parse p q st' h)
+    (f.length + 1 - pos) pos () 0 (Nat.le_refl _)
+  simpa [arscChunks] using this
+
+/-- total of an outcome of the composed loop: outer iterations + accumulated inner iterations -/
+def tot : Outcome Nat Nat → Nat
+  | .exit n a => n + a
+  | .cond n _ a => n + a
+  | .stuck n _ => n
+
+theorem arscParseBody_next (f : List Nat) (outerEnd : Nat) (parse parseIn : Hdr → Bool)
+    (extra : Hdr → Nat) (pos acc q acc' : Nat)
+    (h : arscParseBody f outerEnd parse parseIn extra pos acc = .next q acc') :
+    pos + 8 ≤ q ∧ q ≤ outerEnd ∧ acc ≤ acc' ∧ 8 * (acc' - acc) ≤ q - pos := by
+  unfold arscParseBody at h
+  split at h
+  · cases h
+  · split at h
+    · cases h
+    · rename_i hd hok
+      have ⟨h1, h2, h3, h4, h5⟩ := arscHeader_ok f pos hd hok
+      have hin := arscChunks_steps_end f (hd.start + hd.size) parseIn (hd.start + hd.hsize + extra hd)
+      split at h
+      · cases h
+      · split at h
+        · cases h
+        · split at h
+          · split at h
+            all_goals first
+              | (rename_i hc; rw [hc] at hin; simp only [Outcome.steps] at hin
+                 injection h with hq ha; omega)
+              | cases h
+          · injection h with hq ha; omega
+
+theorem arscParseBody_stop (f : List Nat) (outerEnd : Nat) (parse parseIn : Hdr → Bool)
+    (extra : Hdr → Nat) (pos acc r : Nat)
+    (h : arscParseBody f outerEnd parse parseIn extra pos acc = .stop r) :
+    acc ≤ r ∧ 8 * (r - acc) ≤ outerEnd - pos := by
+  unfold arscParseBody at h
+  split at h
+  · injection h with h; omega
+  · split at h
+    · injection h with h; omega
+    · rename_i hd hok
+      have ⟨h1, h2, h3, h4, h5⟩ := arscHeader_ok f pos hd hok
+      have hin := arscChunks_steps_end f (hd.start + hd.size) parseIn (hd.start + hd.hsize + extra hd)
+      split at h
+      · injection h with h; omega
+      · split at h
+        · injection h with h; omega
+        · split at h
+          · split at h
+            all_goals first
+              | (rename_i hc; rw [hc] at hin; simp only [Outcome.steps] at hin
+                 injection h with h; omega)
+              | cases h
+          · cases h
+
+theorem arscParse_run_bound (f : List Nat) (outerEnd : Nat) (parse parseIn : Hdr → Bool)
+    (extra : Hdr → Nat) :
+    ∀ (m pos acc n : Nat), f.length + 1 - pos ≤ m →
+      (run (arscParseBody f outerEnd parse parseIn extra) (f.length + 1) pos acc n).isStuck = false ∧
+      8 * tot (run (arscParseBody f outerEnd parse parseIn extra) (f.length + 1) pos acc n)
+        ≤ 8 * (n + acc) + 2 * (outerEnd - pos) + 16 := by
+  intro m
+  induction m with
+  | zero =>
+    intro pos acc n hm
+    rw [run]
+    have : ¬ pos < f.length + 1 := by omega
+    simp only [this, dite_false, Outcome.isStuck, tot]
+    exact ⟨trivial, by omega⟩
+  | succ m ih =>
+    intro pos acc n hm
+    rw [run]
+    by_cases hl : pos < f.length + 1
+    · simp only [hl, dite_true]
+      cases hb : arscParseBody f outerEnd parse parseIn extra pos acc with
+      | stop r =>
+        have := arscParseBody_stop f outerEnd parse parseIn extra pos acc r hb
+        simp only [Outcome.isStuck, tot]
+        exact ⟨trivial, by omega⟩
+      | next q acc' =>
+        have hn := arscParseBody_next f outerEnd parse parseIn extra pos acc q acc' hb
+        have hpq : pos < q := by omega
+        simp only [hpq, dite_true]
+        have := ih q acc' (n + 1) (by omega)
+        exact ⟨this.1, by have := this.2; omega⟩
+    · simp only [hl, dite_false, Outcome.isStuck, tot]
+      exact ⟨trivial, by omega⟩
+
+theorem arscParse_bound (f : List Nat) (outerEnd : Nat) (parse parseIn : Hdr → Bool)
+    (extra : Hdr → Nat) (pos : Nat) :
+    (arscParse f outerEnd parse parseIn extra pos).2 = false ∧
+    8 * (arscParse f outerEnd parse parseIn extra pos).1 ≤ 2 * (outerEnd - pos) + 16 := by
+  have := arscParse_run_bound f outerEnd parse parseIn extra (f.length + 1 - pos) pos 0 0 (Nat.le_refl _)
+  unfold arscParse
+  cases hr : run (arscParseBody f outerEnd parse parseIn extra) (f.length + 1) pos 0 0 with
+  | exit n a => rw [hr] at this; simp only [tot] at this; exact ⟨rfl, by show 8 * (n + a) ≤ _; omega⟩
+  | cond n p a => rw [hr] at this; simp only [tot] at this; exact ⟨rfl, by show 8 * (n + a) ≤ _; omega⟩
+  | stuck n p => rw [hr] at this; simp [Outcome.isStuck] at this
+
 end AgVerif.Loops
